@@ -737,7 +737,7 @@ def case(ctx, rng, idx, state):
 if __name__ == "__main__":
     harness.main(
         PROP, "exploration", case, setup_fn=setup,
-        tiers=dict(quick=dict(cases=640, shards=8, time=240), thorough=dict(cases=14000, shards=16, time=540)),
+        tiers=dict(quick=dict(cases=640, shards=8, time=900), thorough=dict(cases=14000, shards=16, time=3000)),
         rule="corner sets: random / exact pair, two pairs, triple, quadruple / near-degenerate gaps 1e-13..1e-3 / chains, "
              "magnitudes 0..1e8, all 24 corner orders, Fermi arrays with points on corners, one ulp beside them, inside "
              "every piece and far outside; a direct case is non-trivial if a Fermi level lies strictly inside the corner "
